@@ -477,10 +477,23 @@ def pytest_sessionfinish(session, exitstatus):
                     )
                 }
 
+                # the code with the changes which are already approved
+                # is the base of the diff which is shown for this category
+                approved_cr = ChangeRecorder()
+                apply_all([c for c in used_changes if id(c) in kept], approved_cr)
+                approved_code = {
+                    file.filename: file.new_code() for file in approved_cr.files()
+                }
+
+                # all changes have to be applied together,
+                # because changes of different categories can edit the same list
                 cr = ChangeRecorder()
-                apply_all([c for c in used_changes if id(c) in kept], cr)
-                cr.virtual_write()
-                apply_all([c for c in changes[flag] if id(c) in kept], cr)
+                apply_all(
+                    [c for c in used_changes + changes[flag] if id(c) in kept], cr
+                )
+                for file in cr.files():
+                    if file.filename in approved_code:
+                        file.source = approved_code[file.filename]
 
                 any_changes = False
 
